@@ -495,7 +495,7 @@ class VerifyTask:
         if m is None:
             return NotImplemented
         key = f"{m.relpath}:{cls.__qualname__}.__init__"
-        c = REGISTRY.get(key)
+        c = self.contract_for(key, None)  # (the task's `contract_overrides` first, as for function calls)
         if c is None or getattr(c, "constructs", None) is None:
             return NotImplemented
         obj = c.constructs.fresh(st, cls.__name__.lower())
